@@ -150,6 +150,9 @@ pub trait Engine: Sync {
     }
     /// max wall-clock per run before the watchdog declares a hang
     fn watchdog(&self, tier: Tier) -> Duration {
+        if cfg!(miri) {
+            return Duration::from_secs(3600); // interpretation is 2-3 orders of magnitude slower
+        }
         match tier {
             Tier::Quick => Duration::from_secs(20),
             Tier::Thorough => Duration::from_secs(120),
@@ -271,6 +274,17 @@ pub struct Batch<P> {
     pub hang: Option<(u64, u64)>,
 }
 
+/// first run index of this process (a batch can be split over several processes, e.g. under Miri)
+pub fn index_base() -> u64 {
+    std::env::var("ZSIM_INDEX_BASE").ok().and_then(|s| s.parse().ok()).unwrap_or(0)
+}
+
+/// small histories (the size used under Miri), selectable natively too so that a Miri finding can be turned into
+/// a replay file by a native process
+pub fn small_mode() -> bool {
+    cfg!(miri) || std::env::var("ZSIM_SMALL").is_ok()
+}
+
 pub fn worker_count() -> usize {
     std::env::var("ZSIM_WORKERS").ok().and_then(|s| s.parse().ok()).unwrap_or(16).max(1)
 }
@@ -351,14 +365,19 @@ pub fn run_batch<E: Engine>(engine: &E, base_seed: u64, tier: Tier, runs: u64, o
                             harness_errors: Vec::new(),
                             soft_skips: 0,
                         };
-                        let mut i = w as u64;
-                        while i < runs {
+                        let base = index_base();
+                        let mut i = base + w as u64;
+                        while i < base + runs {
                             if done.load(Ordering::Relaxed) {
                                 break;
                             }
                             let seed = run_seed(base_seed, id, i);
                             inflight[w].1.store(start.elapsed().as_millis() as u64, Ordering::Relaxed);
                             inflight[w].0.store(i + 1, Ordering::Relaxed);
+                            if cfg!(miri) {
+                                // Miri aborts the process on undefined behaviour: say which run is in flight
+                                eprintln!("MIRI-RUN index={i}");
+                            }
                             let r = catch_unwind(AssertUnwindSafe(|| {
                                 let plan = engine.gen(seed, i, tier);
                                 let out = engine.exec(&plan, &mut part.stats, None);
@@ -514,6 +533,23 @@ pub fn write_replay<E: Engine>(engine: &E, base_seed: u64, f: &Found<E::Plan>, p
     Ok(path)
 }
 
+/// Write the replay file of run `index` without executing it (used when an external monitor — Miri, ASan — killed the
+/// process during that run).
+pub fn emit_replay<E: Engine>(engine: &E, tier: Tier, index: u64, class: &str, build: &str) -> Result<PathBuf, HarnessError> {
+    let base_seed = base_seed_from_env();
+    let seed = run_seed(base_seed, engine.id(), index);
+    let plan = engine.gen(seed, index, tier);
+    let f = Found { index, seed, plan: plan.clone(), violation: violation(class, format!("reported by the {build} build during this run")) };
+    let p = write_replay(engine, base_seed, &f, &plan, 0)?;
+    // patch the build name so that `./check replay` re-runs it under the same monitor
+    let b = std::fs::read(&p).map_err(|e| HarnessError(e.to_string()))?;
+    let mut v: Value = serde_json::from_slice(&b).map_err(|e| HarnessError(e.to_string()))?;
+    v["build"] = Value::String(build.to_string());
+    v["small"] = Value::Bool(small_mode());
+    std::fs::write(&p, serde_json::to_vec_pretty(&v).unwrap()).map_err(|e| HarnessError(e.to_string()))?;
+    Ok(p)
+}
+
 /// Re-execute a replay file. Returns (class expected, class observed).
 pub fn replay<E: Engine>(engine: &E, path: &Path) -> Result<(String, Option<Violation>, Vec<Value>), HarnessError> {
     let b = std::fs::read(path).map_err(|e| HarnessError(format!("cannot read {path:?}: {e}")))?;
@@ -637,7 +673,7 @@ pub fn check<E: Engine>(engine: &E, tier: Tier, opts: &CheckOpts) -> CheckResult
 
     // samples: the three lowest-index runs, re-executed with logging
     let mut samples = Vec::new();
-    for i in 0..runs.min(3) {
+    for i in index_base()..index_base() + runs.min(3) {
         let seed = run_seed(base_seed, id, i);
         let r = catch_unwind(AssertUnwindSafe(|| {
             let plan = engine.gen(seed, i, tier);
